@@ -256,6 +256,20 @@ class CallMixin:
             if not args:
                 return []
             (x,) = args
+            if isinstance(x, range):
+                x = ("#range", x.start, x.stop) if x.step == 1 else x
+            if isinstance(x, tuple) and x and x[0] == "#range":
+                # list(range(n)) / list(range(a, b)): fresh list r with r[i] = a + i
+                a = x[1:]
+                lo, hi = (smt.Int(0), ops.term(a[0], INT)) if len(a) == 1 else (ops.term(a[0], INT), ops.term(a[1], INT))
+                apt = want if (want is not None and want.kind == "arr") else Arr(INT)
+                r = self.fresh("rangelist", apt, st)
+                n = smt.Sub(hi, lo)
+                i = smt.Var(smt.fresh_name("i"), "Int")
+                st.assume(smt.Eq(ops.arr_len(r), smt.Ite(smt.Ge(n, smt.Int(0)), n, smt.Int(0))))
+                st.assume(smt.Forall([(i.args[0], "Int")], smt.Implies(smt.And(smt.Le(smt.Int(0), i), smt.Lt(i, n)),
+                                                                   smt.Eq(smt.Select(ops.arr_data(r), i), smt.Add(lo, i)))))
+                return r
             if isinstance(x, (tuple, list)):
                 return list(x)
             if isinstance(x, SV) and x.pt.kind in ("seq", "arr"):
